@@ -375,4 +375,157 @@ theorem code_lowest (n : Nat) (rs : List (Rule Rat)) :
     · have := (Prod.mk.inj g2).1; simp only [snds] at this; rw [this]; simp [v1, v2, snds]
     · rw [(Prod.mk.inj g2).2]; simp [v1, v2, v3, snds]
 
+/-! ## Proportional -/
+
+theorem code_sumLoop (rules : List (Visit Rat)) : ∀ (l : List (Visit Rat)) (σ : Proportional_activate.S),
+    (Proportional_activate.loop1 rules l σ).map (fun σ' => (σ'.visited, σ'.activate, σ'.sum_degrees, σ'.fires))
+      = lift ((sumLoop σ.sum_degrees l).map (fun q => (σ.visited ++ q.1, σ.activate ++ q.2.1, q.2.2, σ.fires)))
+  | [], σ => by simp [Proportional_activate.loop1, sumLoop, Except.map]
+  | (i, r) :: rest, σ => by
+    simp only [Proportional_activate.loop1, sumLoop]
+    cases h : (deactivate r).loaded <;> simp only [Bool.false_eq_true, if_false, if_true]
+    · rw [code_sumLoop rules rest, lift_map_map]; simp [List.append_assoc]
+    · cases hv : (activateWith (deactivate r)).vector <;>
+        simp only [Bool.false_eq_true, if_false, if_true, bind, Except.bind]
+      · cases hc : X.lt (.fin 0) (activateWith (deactivate r)).actDegree <;>
+          simp only [Bool.false_eq_true, if_false, if_true] <;>
+          rw [code_sumLoop rules rest, lift_map_map] <;> simp [List.append_assoc]
+      · rfl
+
+/-- what the first loop of the model returns: one visited rule per rule, the collected rules are positions of rules -/
+theorem sumLoop_inv : ∀ (l : List (Visit Rat)) (s : X Rat) (q : List (Visit Rat) × List Nat × X Rat),
+    sumLoop s l = .ok q → q.1.length = l.length ∧ ∀ x ∈ q.2.1, ∃ v ∈ l, x = v.1
+  | [], s, q, h => by
+    simp only [sumLoop, Except.ok.injEq] at h
+    subst h; simp
+  | (i, r) :: rest, s, q, h => by
+    simp only [sumLoop] at h
+    split at h
+    · split at h
+      · cases h
+      · split at h
+        · cases hq : sumLoop (X.add s (activateWith (deactivate r)).actDegree) rest with
+          | error e => rw [hq] at h; cases h
+          | ok q' =>
+            rw [hq] at h; simp only [Except.map, Except.ok.injEq] at h; subst h
+            obtain ⟨h1, h2⟩ := sumLoop_inv rest _ q' hq
+            refine ⟨by simp [h1], fun x hx => ?_⟩
+            rcases List.mem_cons.1 hx with hm | hm
+            · exact ⟨(i, r), by simp, hm⟩
+            · obtain ⟨v, hv, hxv⟩ := h2 x hm
+              exact ⟨v, by simp [hv], hxv⟩
+        · cases hq : sumLoop s rest with
+          | error e => rw [hq] at h; cases h
+          | ok q' =>
+            rw [hq] at h; simp only [Except.map, Except.ok.injEq] at h; subst h
+            obtain ⟨h1, h2⟩ := sumLoop_inv rest _ q' hq
+            refine ⟨by simp [h1], fun x hx => ?_⟩
+            obtain ⟨v, hv, hxv⟩ := h2 x hx
+            exact ⟨v, by simp [hv], hxv⟩
+    · cases hq : sumLoop s rest with
+      | error e => rw [hq] at h; cases h
+      | ok q' =>
+        rw [hq] at h; simp only [Except.map, Except.ok.injEq] at h; subst h
+        obtain ⟨h1, h2⟩ := sumLoop_inv rest _ q' hq
+        refine ⟨by simp [h1], fun x hx => ?_⟩
+        obtain ⟨v, hv, hxv⟩ := h2 x hx
+        exact ⟨v, by simp [hv], hxv⟩
+
+/-- `ref.activation_degree /= sum_degrees; ref.trigger(implication)` on the visited rules is `triggerAt (· / s)` of
+    the model on their states -/
+theorem pyDivTriggerAt (vis : List (Visit Rat)) (fires : List (Fire Rat)) (idx : Nat) (s : X Rat) (h : idx < vis.length) :
+    ∃ vis1 vis', Py.Act.modifyAt vis idx (fun r => { r with actDegree := X.div r.actDegree s }) = .ok vis1 ∧
+      Py.Act.triggerAt vis1 fires idx = .ok (vis', fires ++ (triggerAt (fun d => X.div d s) idx (snds vis)).2) ∧
+      snds vis' = (triggerAt (fun d => X.div d s) idx (snds vis)).1 ∧ vis'.length = vis.length := by
+  have hs : (snds vis)[idx]? = some (vis[idx]).2 := by simp [snds, h]
+  refine ⟨vis.set idx ((vis[idx]).1, { (vis[idx]).2 with actDegree := X.div (vis[idx]).2.actDegree s }),
+    vis.set idx ((vis[idx]).1, (trigger idx { (vis[idx]).2 with actDegree := X.div (vis[idx]).2.actDegree s }).1),
+    ?_, ?_, ?_, by simp⟩
+  · simp only [Py.Act.modifyAt, List.getElem?_eq_getElem h]
+  · simp only [Py.Act.triggerAt, List.getElem?_set_self h, List.set_set, triggerAt, hs]
+  · simp only [triggerAt, hs]
+    simp only [snds, List.map_set]
+
+theorem code_divLoop (rules : List (Visit Rat)) : ∀ (idxs : List Nat) (σ : Proportional_activate.S),
+    (∀ i ∈ idxs, i < σ.visited.length) →
+    (Proportional_activate.loop2 rules idxs σ).map (fun σ' => (snds σ'.visited, σ'.fires))
+      = .ok ((divLoop σ.sum_degrees idxs (snds σ.visited)).1,
+             σ.fires ++ (divLoop σ.sum_degrees idxs (snds σ.visited)).2)
+  | [], σ, _ => by simp [Proportional_activate.loop2, divLoop, Except.map]
+  | i :: rest, σ, hb => by
+    obtain ⟨vis1, vis', h0, h1, h2, h3⟩ := pyDivTriggerAt σ.visited σ.fires i σ.sum_degrees (hb i (by simp))
+    simp only [Proportional_activate.loop2, divLoop, h0, bind, Except.bind, h1]
+    rw [code_divLoop rules rest]
+    · simp [h2, List.append_assoc]
+    · intro y hy; simp only [h3]; exact hb y (by simp [hy])
+
+theorem code_proportional (rs : List (Rule Rat)) :
+    match activate .proportional rs with
+    | .error e => Proportional_activate.run (enum 0 rs) {} = .error e.toPy
+    | .ok o => ∃ σ, Proportional_activate.run (enum 0 rs) {} = .ok σ ∧ σ.visited.map (·.2) = o.rules ∧
+        σ.fires = o.fires := by
+  have h := code_sumLoop (enum 0 rs) (enum 0 rs) { activate := [], sum_degrees := .fin 0 }
+  simp only [activate, Proportional_activate.run, bind_ok_self]
+  cases hc : sumLoop (.fin 0) (enum 0 rs) with
+  | error e => rw [hc] at h; rw [agree_error h]; rfl
+  | ok q =>
+    rw [hc] at h
+    obtain ⟨σ, h1, h2⟩ := agree_ok h
+    obtain ⟨i1, i2⟩ := sumLoop_inv _ _ q hc
+    simp only [Prod.mk.injEq, default_list, List.nil_append] at h2
+    obtain ⟨v1, v2, v3, v4⟩ := h2
+    rw [h1]; simp only [bind, Except.bind]
+    have h3 := code_divLoop (enum 0 rs) σ.activate σ
+      (by
+        intro x hx
+        simp only [v1, v2] at hx ⊢
+        obtain ⟨v, hv, hxv⟩ := i2 x hx
+        rw [i1, hxv, enum_length]; exact enum_fst_lt hv)
+    obtain ⟨σ', g1, g2⟩ := agree_ok (a := (_, _)) h3
+    refine ⟨σ', g1, ?_, ?_⟩
+    · have := (Prod.mk.inj g2).1; simp only [snds] at this; rw [this]; simp [v1, v2, v3, snds]
+    · rw [(Prod.mk.inj g2).2]; simp [v1, v2, v3, v4, snds]
+
+/-! ## all methods -/
+
+theorem agree_combine {S : Type} (g : Py.M S) (x : Except Err (Outcome Rat)) (f : S → List (Rule Rat))
+    (fi : S → List (Fire Rat)) :
+    (match x with
+      | .error e => g = .error e.toPy
+      | .ok o => ∃ σ, g = .ok σ ∧ f σ = o.rules ∧ fi σ = o.fires) →
+    g.map (fun σ => (f σ, fi σ)) = match x with
+      | .error e => .error e.toPy
+      | .ok o => .ok (o.rules, o.fires) := by
+  intro h
+  cases x with
+  | error e => simp only at h; rw [h]; rfl
+  | ok o =>
+    simp only at h
+    obtain ⟨σ, h1, h2, h3⟩ := h
+    rw [h1]; simp only [Except.map, h2, h3]
+
+/-- the translated method that `m` names, run on the rules paired with their positions, returns the rule states
+    (in block order) and the contributions of `Op.Activation.activate m`, or raises the same exception -/
+theorem code_activate (m : Method Rat) (rs : List (Rule Rat)) :
+    (match m with
+      | .general => (General_activate.run (enum 0 rs) {}).map (fun σ : General_activate.S => (σ.visited.map (·.2), σ.fires))
+      | .first n t => (First_activate.run (enum 0 rs) n t {}).map (fun σ : First_activate.S => (σ.visited.map (·.2), σ.fires))
+      | .last n t => (Last_activate.run (enum 0 rs) n t {}).map (fun σ : Last_activate.S => ((σ.visited.map (·.2)).reverse, σ.fires))
+      | .highest n => (Highest_activate.run (enum 0 rs) n {}).map (fun σ : Highest_activate.S => (σ.visited.map (·.2), σ.fires))
+      | .lowest n => (Lowest_activate.run (enum 0 rs) n {}).map (fun σ : Lowest_activate.S => (σ.visited.map (·.2), σ.fires))
+      | .proportional => (Proportional_activate.run (enum 0 rs) {}).map (fun σ : Proportional_activate.S => (σ.visited.map (·.2), σ.fires))
+      | .threshold c t => (Threshold_activate.run (enum 0 rs) c t {}).map (fun σ : Threshold_activate.S => (σ.visited.map (·.2), σ.fires))
+      : Py.M (List (Rule Rat) × List (Fire Rat)))
+    = match activate m rs with
+      | .error e => .error e.toPy
+      | .ok o => .ok (o.rules, o.fires) := by
+  cases m with
+  | general => exact agree_combine (S := General_activate.S) _ (activate .general rs) (fun σ => σ.visited.map (·.2)) (fun σ => σ.fires) (code_general rs)
+  | first n t => exact agree_combine (S := First_activate.S) _ _ (fun σ => σ.visited.map (·.2)) (fun σ => σ.fires) (code_first n t rs)
+  | last n t => exact agree_combine (S := Last_activate.S) _ _ (fun σ => (σ.visited.map (·.2)).reverse) (fun σ => σ.fires) (code_last n t rs)
+  | highest n => exact agree_combine (S := Highest_activate.S) _ _ (fun σ => σ.visited.map (·.2)) (fun σ => σ.fires) (code_highest n rs)
+  | lowest n => exact agree_combine (S := Lowest_activate.S) _ _ (fun σ => σ.visited.map (·.2)) (fun σ => σ.fires) (code_lowest n rs)
+  | proportional => exact agree_combine (S := Proportional_activate.S) _ _ (fun σ => σ.visited.map (·.2)) (fun σ => σ.fires) (code_proportional rs)
+  | threshold c t => exact agree_combine (S := Threshold_activate.S) _ _ (fun σ => σ.visited.map (·.2)) (fun σ => σ.fires) (code_threshold c t rs)
+
 end Op.Activation
